@@ -239,6 +239,7 @@ def all : Gen → List Rat
   | .factor base fact init elem _ _ => (List.range elem).map (facNth base fact init)
   | .boundary l i r elem _ => (List.range elem).map (bndNth l i r elem)
   | .poly grid coeff _ _ => grid.map (polyEval coeff)
+  | .polyN coeff _ _ => (List.range 4294967295).map fun (i : Nat) => polyEval coeff (i : Rat)
   | .values text _ _ => nums text
 
 /-- the elements still to come, the current one first -/
@@ -247,6 +248,7 @@ def rem : Gen → List Rat
   | g@(.factor _ _ _ _ pos _) => g.all.drop pos
   | g@(.boundary _ _ _ _ pos) => g.all.drop pos
   | g@(.poly _ _ pos _) => g.all.drop pos
+  | g@(.polyN _ pos _) => g.all.drop pos
   | .values _ none _ => []
   | .values _ (some s) curr => curr :: nums s
 
@@ -256,6 +258,7 @@ def WF : Gen → Prop
   | .factor base fact init elem pos curr => pos < elem → curr = facNth base fact init pos
   | .boundary .. => True
   | .poly grid coeff pos cache => ∀ v, cache = some v → v = polyEval coeff (grid.getD pos 0)
+  | .polyN coeff pos cache => ∀ v, cache = some v → v = polyEval coeff (pos : Rat)
   | .values text next _ =>
     (∃ v rest, cdouble text = .ok v rest) ∧ numsOk text = true ∧
     (∀ s, next = some s → numsOk s = true)
@@ -342,6 +345,22 @@ theorem value_sim (g : Gen) (h : g.WF) :
         intro v hv'; cases hv'; rfl
     · rw [if_pos (by omega), if_neg hp]
       exact ⟨rfl, rfl, h⟩
+  | polyN coeff pos cache =>
+    have hv : (Cur.value (Gen.abs (Gen.polyN coeff pos cache)))
+        = if pos < 4294967295 then some (polyEval coeff (pos : Rat)) else none := by
+      simp only [Gen.abs, Cur.value, Gen.rem, Gen.all]
+      exact head_drop_map (fun (i : Nat) => polyEval coeff (i : Rat)) 4294967295 pos
+    rw [hv]
+    simp only [Gen.value]
+    by_cases hp : pos < 4294967295
+    · rw [if_neg (by omega), if_pos hp]
+      cases cache with
+      | some v => exact ⟨by rw [h v rfl], rfl, h⟩
+      | none =>
+        refine ⟨rfl, rfl, ?_⟩
+        intro v hv'; cases hv'; rfl
+    · rw [if_pos (by omega), if_neg hp]
+      exact ⟨rfl, rfl, h⟩
   | values text next curr =>
     refine ⟨?_, rfl, h⟩
     cases next <;> simp [Gen.value, Gen.abs, Cur.value, Gen.rem]
@@ -414,6 +433,20 @@ theorem advance_sim (g : Gen) (h : g.WF) :
       have := cur_advance_out (Gen.poly grid coeff pos cache).all pos (by omega)
       rw [this]
       exact ⟨rfl, rfl, h⟩
+  | polyN coeff pos cache =>
+    have hl : (Gen.polyN coeff pos cache).all.length = 4294967295 := by simp [Gen.all]
+    simp only [Gen.advance, Gen.abs, Gen.rem]
+    by_cases hp : pos < 4294967295
+    · rw [if_neg (by omega)]
+      have := cur_advance_in (Gen.polyN coeff pos cache).all pos (by omega)
+      rw [this, hl]
+      refine ⟨rfl, ?_, ?_⟩
+      · simp only []; split <;> rfl
+      · intro v hv; cases hv
+    · rw [if_pos (by omega)]
+      have := cur_advance_out (Gen.polyN coeff pos cache).all pos (by omega)
+      rw [this]
+      exact ⟨rfl, rfl, h⟩
   | values text next curr =>
     obtain ⟨h1, h2, h3⟩ := h
     cases next with
@@ -464,6 +497,10 @@ theorem reset_sim (g : Gen) (h : g.WF) :
     refine ⟨?_, by simp only [Gen.reset]; omega, trivial⟩
     simp [Gen.reset, Gen.abs, Gen.rem, Gen.all, Cur.reset]
   | poly grid coeff pos cache =>
+    refine ⟨?_, by simp only [Gen.reset]; omega, ?_⟩
+    · simp [Gen.reset, Gen.abs, Gen.rem, Gen.all, Cur.reset]
+    · intro v hv; cases hv
+  | polyN coeff pos cache =>
     refine ⟨?_, by simp only [Gen.reset]; omega, ?_⟩
     · simp [Gen.reset, Gen.abs, Gen.rem, Gen.all, Cur.reset]
     · intro v hv; cases hv
